@@ -103,8 +103,11 @@ def generate(rng, tier):
             c['models'] = gen_models(rng, P)
             c.update(N=rng.randint(5, 8), n_cv=rng.choice([1, 2]), k_pattern=rng.choice([1, 2]), k_rdm=rng.choice([1, 2]),
                      use_correction=rng.random() < 0.7)
-            if c['method'] == 'corr' and c['k_pattern'] == 2:
-                c['method'] = 'cosine'
+            if c['method'] == 'corr':
+                # a resample with three distinct conditions passes the routine's size test, but the correlation-pooled training RDM
+                # of such a resample can be undefined (all NaN): cv_noise_ceiling then raises (note F37); correlation is exercised
+                # through bootstrap_crossval and the other routines
+                c['method'] = rng.choice(['cosine', 'rho-a'])
             if c['k_pattern'] == 1 and c['k_rdm'] == 1:
                 c['n_cv'] = 1                  # the routine itself forces one repetition without correction then
         else:
@@ -687,8 +690,17 @@ def support(rng, tier):
             if routine == 'eval_dual_bootstrap':
                 return EV.eval_dual_bootstrap(models, D, method=method, k_pattern=2, k_rdm=1, N=3, n_cv=2)
             return EV.eval_dual_bootstrap_random(models, D, method='cosine', n_pattern=3, n_rdm=1, N=3, n_cv=2)
+        def outcome():
+            try:
+                return once()
+            except Exception as e:      # an outcome like any other: it must be the same one on the rerun
+                return f'{type(e).__name__}: {e}'
         try:
-            a, b = once(), once()
+            a, b = outcome(), outcome()
+            if isinstance(a, str) or isinstance(b, str):
+                out.append((f'rerun_with_same_seed_default_fitters:{routine}', a == b if isinstance(a, str) and isinstance(b, str) else False,
+                            dict(routine=routine, method=method, numpy_seed=seed, first=str(a)[:200], second=str(b)[:200])))
+                continue
             same = (np.array_equal(a.evaluations, b.evaluations, equal_nan=True)
                     and np.array_equal(np.asarray(a.noise_ceiling, float), np.asarray(b.noise_ceiling, float), equal_nan=True)
                     and (a.variances is None or np.array_equal(a.variances, b.variances, equal_nan=True)))
